@@ -134,6 +134,12 @@ fn run_events(ts: &[Transfer], order: &[usize], rep: Option<&mut Report>, overla
     let mut out: Vec<Vec<Entry>> = vec![Vec::new(); ts.len()];
     let mut pending: Vec<Option<(Box<Pending>, u16)>> = (0..ts.len()).map(|_| None).collect();
     let mut mid = 0x2000u16;
+    let distinct_endpoints = {
+        let mut eps: Vec<u32> = ts.iter().map(|t| t.key.ep).collect();
+        eps.sort();
+        eps.dedup();
+        eps.len() == ts.len()
+    };
     let mut rep = rep;
     // events in the given order, then whatever is still pending / not yet sent, transfer by transfer
     let mut events: Vec<usize> = order.to_vec();
@@ -160,6 +166,10 @@ fn run_events(ts: &[Transfer], order: &[usize], rep: Option<&mut Report>, overla
                 continue;
             }
             mid = mid.wrapping_add(1);
+            // message ids are scoped to an endpoint: transfers of different endpoints count their own ids from the
+            // same base (so concurrent requests of two endpoints carry the *same* id); transfers that share an
+            // endpoint draw from one counter
+            let mid = if distinct_endpoints { 0x2000u16 + 1 + pos[ti] as u16 } else { mid };
             this_mid = mid;
             let req = request_of(t, pos[ti], mid);
             pos[ti] += 1;
